@@ -164,6 +164,8 @@ class Library:
                 return len(x)
             if hasattr(x, "shape"):
                 return x.shape[0]
+            if hasattr(x, "length"):
+                return x.length()
             raise OutOfReach(f"len of {type(x).__name__}")
 
         def b_range(*a):
